@@ -103,7 +103,7 @@ let judge_res es o sv p =
   | None -> VPropfail ("one_request_per_exchange",
                        Printf.sprintf "origin-saw=%d want=%d" (List.length o.origin_saw) (List.length sv))
 
-let judge _name ins outs =
+let judge_conn ins outs =
   match ins with
   | "H1" :: _mode :: xtoks ->
       let es = List.map parse_exchange xtoks in
@@ -157,5 +157,35 @@ let judge _name ins outs =
            end
          end)
   | _ -> VDisagree "unknown-case-kind"
+
+(* split a token list at a separator *)
+let split_at sep l =
+  let rec go cur acc = function
+    | [] -> List.rev (List.rev cur :: acc)
+    | x :: r when x = sep -> go [] (List.rev cur :: acc) r
+    | x :: r -> go (x :: cur) acc r in
+  go [] [] l
+
+let judge _name ins outs =
+  match ins with
+  | "H1" :: mode :: toks when String.length mode > 6 && String.sub mode 0 6 = "multi." ->
+      (* several client connections in a row through one proxy: each is judged as a connection of its own *)
+      let segs = split_at "N" toks and osegs = split_at "NEXT" outs in
+      if List.exists (fun t -> String.length t >= 5 && String.sub t 0 5 = "PANIC") outs then
+        VPropfail ("proxy_panic", String.concat " " outs)
+      else if List.length segs <> List.length osegs then
+        VPropfail ("one_response_per_request", Printf.sprintf "connections-run=%d want=%d" (List.length osegs) (List.length segs))
+      else begin
+        let rec go k ss os nt =
+          match ss, os with
+          | s :: ss', o :: os' ->
+              (match judge_conn ("H1" :: "seq" :: s) o with
+               | VOk b -> go (k + 1) ss' os' (nt || b || k > 0)
+               | VPropfail (c, d) -> VPropfail (c, Printf.sprintf "connection=%d %s" k d)
+               | VDisagree d -> VDisagree (Printf.sprintf "connection=%d %s" k d))
+          | _, _ -> VOk nt in
+        go 0 segs osegs false
+      end
+  | _ -> judge_conn ins outs
 
 let () = run_driver judge
